@@ -217,7 +217,7 @@ JL_ASSUME = [
 ]
 for _p in ("C08", "C09", "C10", "C11", "C12", "C13"):
     PROPS[_p] = {"modules": ["joblife"], "assumptions": JL_ASSUME}
-for _p in ("C10", "C11"):
+for _p in ("C10", "C11", "C13"):
     PROPS[_p] = {"modules": ["joblife", "status"], "assumptions": JL_ASSUME + [
         "status derivation (Status module): Pods are drawn from the enumerated shapes (phase, deletion, startTime, deadline-exceeded, up to two containers in five states); a container that restarted (lastTerminationState) is outside them"]}
 
@@ -282,7 +282,7 @@ FORMULAS = {
     "C10": ["C10_SuccOnly", "C10_FailOnly", "C10_RefMatchesTask", "C10_NoLiveAtFinish", "C10_Reaches", "C10_Progress", "C10_TaskTruth", "C10_Result"],
     "C11": ["C11_Coherent", "C11_Monotone", "C11_KeepTimes", "C11_LostKeeps", "C11_Deterministic", "C11_Total"],
     "C12": ["C12_DeleteJustified", "C12_ForceGate", "C12_KillSticky", "C12_KillCompletes", "C12_PendingCompletes"],
-    "C13": ["C13_Order", "C13_OrderAll", "C13_TTLNotEarly", "C13_DeletionCompletes", "C13_TTLEventually"],
+    "C13": ["C13_Order", "C13_OrderAll", "C13_TTLNotEarly", "C13_DeletionCompletes", "C13_TTLEventually", "C13_FinishTime"],
 }
 
 
@@ -321,11 +321,12 @@ LEVEL_TEXT["C18"] = "A functional TLA+ specification (Options.tla) defines Eval(
 LEVEL_TEXT["C16"] = "A functional TLA+ specification (Admission.tla) defines the defaulted object of a Job request as a function of which optional fields are present (type, TTL, template, maxAttempts, pending timeout, parallelism strategy, restart policy, finalizers) and of the dynamic-config defaults, the result of configName expansion (owner reference, UID label and template always the JobConfig's; its concurrency policy only when none was given; explicit substitutions over option values over JobConfig defaults; submitted labels over template labels), and the lastUpdated stamping rule for create / schedule changed / unchanged x user-supplied lastUpdated; TLC enumerates ~16 800 requests, checks that defaulting is a fixpoint on the specification, and every case is sent as a raw AdmissionRequest (optional fields really absent) through the real mutating (and for configName also validating) webhooks, the patch applied with the API server's JSON-patch library; TLC judges defaulted object = Mutate(case), second pass = first, patch applies and equals the typed defaulted object."
 LEVEL_TEXT["C17"] = "The same specification defines which single-field Job updates must be refused (task template, parallelism, attempts, retry delay, type, option values, substitutions, JobConfig UID label always; start policy once started; kill timestamp once passed) and the implication chain accepted => loadable by the cron scheduler => bumpable => instantiable => the Job passes defaulting and validation => task objects can be built; TLC enumerates every (field, changed, how, started, kill passed) update and a corpus of 2 065 cron schedules (34 expression shapes incl. H forms, macros, L/W/#, ?, year-bounded and never-matching ones x 15 time-zone forms x 2 formats x hashing on/off, multi-expression lists); each update goes through the real validating webhook and each corpus element through the real JobConfig webhooks, cronschedule.New / Bump, NewJobFromJobConfig, the Job webhooks and NewPod; TLC compares the decisions."
 _STATUS_TEXT = (" A functional TLA+ specification of the status derivation chain (Status.tla: Pod -> task status -> recorded TaskRef with retained timestamps and DeletedStatus -> "
-                "per-index status -> condition with the deletion override -> coarse state and phase) is checked by TLC on 16 276 enumerated cases (Pod shapes x existing refs; Job context x strategy x maxAttempts x "
+                "per-index status -> condition with the deletion override -> coarse state and phase) is checked by TLC on 28 756 enumerated cases (Pod shapes x existing refs; Job context x strategy x maxAttempts x "
                 "recorded refs per index) against the laws this property demands of it, and every case is evaluated on the real PodTask.GetTaskRef, GenerateTaskRefs and UpdateJobStatusFromTaskRefs; TLC judges the laws on the real outputs "
                 "(and reports any difference from the specification's functions as conformance drift).")
 LEVEL_TEXT["C10"] += _STATUS_TEXT
 LEVEL_TEXT["C11"] += _STATUS_TEXT
+LEVEL_TEXT["C13"] += _STATUS_TEXT + " For this property the chain supplies the finish time the TTL counts from: it must be the latest finish time among the Job's tasks."
 DESIGN_REF = {p: "DESIGN.md section 4 (%s)" % p for p in ["C%02d" % i for i in range(1, 21)]}
 TECH_FUN = "explicit TLA+ functional specification; TLC enumerates the case space (one state per case, the specification's own laws as invariants); every case is evaluated on the real code and a log-driven TLA+ monitor judges the observations against the specification"
 NOTE_FUN = ("Trusted: TLC, the Json/IOUtils community modules, Go runtime, the harness's concretisation of abstract cases into real objects / requests and its projection of results. "
